@@ -9,7 +9,7 @@
    object that is not live (outcome Dangling of [step]).  [listed u p] = p is in u's input or output
    port list. *)
 From OlaBase Require Import Bytes.
-From C03 Require Import Gen Model Lemmas Proofs Proofs2 Model2 Proofs3 Proofs4 Model3 Proofs5 Proofs6.
+From C03 Require Import Gen Model Lemmas Proofs Proofs2 Model2 Proofs3 Proofs4 Model3 Proofs5 Proofs6 Model4 Proofs7.
 Local Open Scope N_scope.
 
 (* the constants regenerated from include/ola/dmx/SourcePriorities.h are the property's numbers *)
@@ -452,3 +452,48 @@ Proof.
   vm_compute. split; [reflexivity|]. split; [|split; [repeat constructor | split; reflexivity]].
   intros op Hin. repeat (destruct Hin as [<-|Hin]; [discriminate|]). destruct Hin.
 Qed.
+
+(* ====================================================================================================
+   Wave 6: deferred completions (Model4.v).  An output port created with start_rdm_discovery_on_patch
+   starts a discovery whenever SetUniverse() succeeds; [ZFire p us] is that discovery completing LATER
+   with UID set us (BasicOutputPort::UpdateUIDs -> Universe::NewUIDList), at any point of the history.
+   [z_uids z a] is universe a's UID -> output-port routing table, [route z a uid] the port
+   Universe::SendRDMRequest hands a unicast request for uid to. *)
+
+(* Every history of the complete operation set with completions fired at arbitrary points runs to the
+   end (no completion dereferences a collected universe); its state without the routing tables is the
+   state of the same history without the completions (so every c03y_* theorem applies to it); and a
+   universe routes RDM only to ports that are patched to it and listed by it. *)
+Theorem c03z_inv : forall (zc : zcfg) (ops : list zop),
+  exists z s, zrun zc (zinit zc) ops = Some z /\ s = x_s (y_x (z_y z)) /\
+    yrun (zc_xc zc) (yinit (zc_xc zc)) (zproj ops) = Some (z_y z) /\
+    (forall a uid q, route z a uid = Some q ->
+       s_puniv s q = Some a /\ exists u, s_heap s a = Live u /\ listed u q).
+Proof. exact c03z_inv_l. Qed.
+Print Assumptions c03z_inv.
+
+(* A completion, whenever it fires, leaves ports, universes, store and clients untouched and edits at most
+   the routing table of the universe the port is patched to at that moment (none if it is unpatched). *)
+Theorem c03z_fire : forall (zc : zcfg) (ops : list zop) (z : zstate) (p : N) (us : list N),
+  zrun zc (zinit zc) ops = Some z ->
+  exists z' r, zstep zc z (ZFire p us) = ZOk z' r /\ z_y z' = z_y z /\
+    (forall a, s_puniv (x_s (y_x (z_y z))) p <> Some a -> z_uids z' a = z_uids z a).
+Proof. exact c03z_fire_l. Qed.
+Print Assumptions c03z_fire.
+
+(* patch to 1, re-patch to 2, first discovery completes (goes to universe 2, where the port now is),
+   universe 1 is collected, second completes, un-patch erases the entries, a late third is a no-op *)
+Example ex_deferred :
+  let zc := mkzcfg ex_xcfg (fun p => p =? 1) in
+  match zrun zc (zinit zc) [ZY (YX (XBase (Patch 1 1))); ZY (YX (XBase (Patch 1 2))); ZFire 1 [7];
+                            ZY (YX (XBase GC)); ZFire 1 [7; 8]] with
+  | Some z =>
+    map fst (s_store (zbase z)) = [2] /\
+    (match sfind 2 (s_store (zbase z)) with Some a => route z a 7 = Some 1 /\ route z a 8 = Some 1 | None => False end) /\
+    match zrun zc z [ZY (YX (XBase (Unpatch 1))); ZFire 1 [9]; ZY (YX (XBase GC)); ZFire 1 [9]] with
+    | Some z2 => s_store (zbase z2) = [] /\ z_pend z2 1 = 0
+    | None => False
+    end
+  | None => False
+  end.
+Proof. vm_compute. repeat split; reflexivity. Qed.
